@@ -870,11 +870,9 @@ func genSliceIdioms() string {
 	for k, fd := range sa.funcs {
 		switch recvTypeName(fd) {
 		case "Array", "Hash", "MutableHashValue":
-			if returnsCollection(fd) && src(fd.Type.Results.List[0].Type) != "px.Value" {
-				keys = append(keys, k)
-			} else if fd.Name.Name == "EachSlice" || fd.Name.Name == "mergeEntries" || fd.Name.Name == "PutAll" || fd.Name.Name == "Put" {
-				keys = append(keys, k)
-			}
+			// every method: those that do not create collections contribute rows only if they write through
+			// the receiver's storage or build a collection on the side (EachSlice)
+			keys = append(keys, k)
 		case "BasicCollector":
 			switch fd.Name.Name {
 			case "AddArray", "AddHash", "Add", "AddRef", "PopLast", "Init":
